@@ -92,13 +92,16 @@ type driveEvent struct {
 	Cached    []int       `json:"cached"`       // stored: the leaves in the instance's index
 	Nodes     [][]any     `json:"nodes"`        // stored: every stored [row, idx, hash]
 	Prem      [][]any     `json:"prem"`         // mod: per partial instance [name, [added slots it was asked to remember]]
+	API       string      `json:"api,omitempty"` // accept: the verifier that accepted
+	Hs        []string    `json:"hs"`            // accept: the claimed hashes
+	Tg        [][2]uint64 `json:"tg"`            // accept: the claimed positions
 	Rem       []int       `json:"rem"`   // mod: slots the light client asked to remember
 	Lossy     bool        `json:"lossy"` // hold: taken after undoing a block that overwrote an empty root (known finding C08-F1)
 }
 
 func newEv(ev string, h, i int) driveEvent {
 	return driveEvent{Ev: ev, H: h, I: i, D: []int{}, Roots: []string{}, Pos: [][3]uint64{}, Untracked: []int{},
-		S: []int{}, T: [][2]uint64{}, P: []string{}, Td: [][2]uint64{}, Ndel: [][]any{}, Nadd: [][]any{}, Rem: []int{}, Cached: []int{}, Nodes: [][]any{}, Prem: [][]any{}}
+		S: []int{}, T: [][2]uint64{}, P: []string{}, Td: [][2]uint64{}, Ndel: [][]any{}, Nadd: [][]any{}, Rem: []int{}, Cached: []int{}, Nodes: [][]any{}, Prem: [][]any{}, Hs: []string{}, Tg: [][2]uint64{}}
 }
 
 type driveWorld struct {
@@ -121,6 +124,7 @@ type driveWorld struct {
 	lcBroken  bool
 	lcLossy   bool // the last undo was of a block with a non-empty ToDestroy
 	held      map[int]bool // what the light client was asked to hold (bookkeeping of the requests made)
+	nmut      int
 }
 
 type driveSaved struct {
@@ -164,6 +168,7 @@ func runDrive(cfg Config, in io.Reader, extra string, workers int) int {
 		sum.Distinct++
 		sum.Calls += w.calls
 		sum.Extra["events"] += w.i
+		sum.Extra["mutated_proofs_verified"] += w.nmut
 		for _, fl := range w.fails {
 			for _, p := range fl.Props {
 				if cfg.Judge[p] {
@@ -356,6 +361,7 @@ func (w *driveWorld) run(maxN, blocks int) {
 				return
 			}
 			w.proveSome()
+			w.mutateAndVerify()
 			w.flush()
 		}
 	})
@@ -815,6 +821,137 @@ func (w *driveWorld) proveSome() {
 			w.fail([]string{"C02"}, in.Name, "verify.reject", fmt.Sprintf("Verify rejects the proof %s gave for %v: %v", in.Name, s, err))
 		}
 		w.calls++
+	}
+}
+
+// mutateAndVerify (C03 on large forests): an honest proof of a random set of
+// live leaves is mutated in structured ways - a target moved to its sibling,
+// a cousin, another tree or a position that does not exist, duplicated, or
+// replaced by its parent; two hashes swapped; a hash replaced by a root hash
+// or a fresh value; a proof hash altered, zeroed, dropped or inserted - and
+// given to the stand-alone verifier, the pointer forest and the map forest.
+// Every ACCEPTANCE is recorded; TLC decides whether the accepted claims are
+// true in the abstract state (ClaimsTrue).
+func (w *driveWorld) mutateAndVerify() {
+	lv := w.liveSorted()
+	if len(lv) == 0 {
+		return
+	}
+	pick := append([]int{}, lv...)
+	w.rng.Shuffle(len(pick), func(a, b int) { pick[a], pick[b] = pick[b], pick[a] })
+	if len(pick) > 1+w.rng.Intn(4) {
+		pick = pick[:1+w.rng.Intn(4)]
+	}
+	hs0 := w.hashes(pick)
+	pr, err := w.insts[0].P.Prove(hs0)
+	if err != nil {
+		return // reported by proveSome
+	}
+	R := treeRows(w.n)
+	top := (uint64(1) << (uint(R) + 1)) - 2
+	junk := func() Hash { return w.sy.H(junkTerm(1 + w.rng.Intn(50))) }
+	type cand struct {
+		hs []Hash
+		tg []uint64
+		pf []Hash
+	}
+	clone := func() cand {
+		return cand{append([]Hash{}, hs0...), append([]uint64{}, pr.Targets...), append([]Hash{}, pr.Proof...)}
+	}
+	cands := []cand{clone()}
+	for i := range pr.Targets {
+		t := pr.Targets[i]
+		for _, nt := range []uint64{t ^ 1, t + 2, t ^ 2, top, top + 1, top + 5, 1 << 40, uint64(w.rng.Intn(int(top) + 1))} {
+			c := clone()
+			c.tg[i] = nt
+			cands = append(cands, c)
+		}
+		c := clone() // duplicated target
+		c.hs, c.tg = append(c.hs, c.hs[i]), append(c.tg, c.tg[i])
+		cands = append(cands, c)
+		if ri, ok := dec(t, R); ok && ri.Row < R { // replaced by / nested with its parent
+			par := enc(RI{ri.Row + 1, ri.Idx / 2}, R)
+			c = clone()
+			c.tg[i] = par
+			cands = append(cands, c)
+			c = clone()
+			c.hs, c.tg = append(c.hs, w.insts[0].P.GetHash(par)), append(c.tg, par)
+			cands = append(cands, c)
+		}
+		c = clone()
+		c.hs[i] = junk()
+		cands = append(cands, c)
+		if rs := w.stump.Roots; len(rs) > 0 {
+			c = clone()
+			c.hs[i] = rs[w.rng.Intn(len(rs))]
+			if c.hs[i] != zeroHash {
+				cands = append(cands, c)
+			}
+		}
+		for j := i + 1; j < len(pr.Targets); j++ {
+			c = clone()
+			c.hs[i], c.hs[j] = c.hs[j], c.hs[i]
+			cands = append(cands, c)
+			c = clone()
+			c.tg[i], c.tg[j] = c.tg[j], c.tg[i]
+			cands = append(cands, c)
+		}
+	}
+	for k := range pr.Proof {
+		c := clone()
+		c.pf[k] = junk()
+		cands = append(cands, c)
+		c = clone()
+		c.pf[k] = zeroHash
+		cands = append(cands, c)
+		c = clone()
+		c.pf = append(c.pf[:k:k], c.pf[k+1:]...)
+		cands = append(cands, c)
+		c = clone()
+		c.pf = append(append(append([]Hash{}, c.pf[:k]...), junk()), c.pf[k:]...)
+		cands = append(cands, c)
+		if k+1 < len(pr.Proof) {
+			c = clone()
+			c.pf[k], c.pf[k+1] = c.pf[k+1], c.pf[k]
+			cands = append(cands, c)
+		}
+	}
+	apis := []struct {
+		name string
+		call func(c cand) bool
+	}{
+		{"Verify", func(c cand) bool {
+			_, err := utreexo.Verify(w.stump, c.hs, utreexo.Proof{Targets: c.tg, Proof: c.pf})
+			return err == nil
+		}},
+		{"Pollard.Verify", func(c cand) bool {
+			return w.insts[0].P.Verify(c.hs, utreexo.Proof{Targets: c.tg, Proof: c.pf}, false) == nil
+		}},
+		{"MapPollard.Verify/63", func(c cand) bool {
+			return w.insts[1].M.Verify(c.hs, utreexo.Proof{Targets: c.tg, Proof: c.pf}, false) == nil
+		}},
+		{"MapPollard.Verify/0", func(c cand) bool {
+			return w.insts[2].M.Verify(c.hs, utreexo.Proof{Targets: c.tg, Proof: c.pf}, false) == nil
+		}},
+	}
+	for _, c := range cands {
+		for _, a := range apis {
+			c, a := c, a
+			var ok bool
+			if pan := protect(func() { ok = a.call(c) }); pan != "" {
+				w.fail([]string{"C04"}, a.name, "panic", "verifier panicked on a mutated proof: "+pan)
+				return
+			}
+			w.calls++
+			w.nmut++
+			if !ok {
+				continue
+			}
+			hs, tg := append([]Hash{}, c.hs...), append([]uint64{}, c.tg...)
+			w.emitLazy(func(e *driveEvent) {
+				e.API, e.Hs, e.Tg = a.name, w.sy.Ts(hs), w.jTargets(tg, R)
+			}, "accept")
+		}
 	}
 }
 
